@@ -2657,6 +2657,15 @@ def _m_product(interp, *its, **k):
 
 def _m_zip_longest(interp, *its, fillvalue=None):
     import itertools as _it
+    if any(isinstance(x, SSeq) and not z3.is_int_value(z3.simplify(x.len)) for x in its):
+        ss = [as_seq(interp, x) for x in its]
+        n = ss[0].len
+        for q in ss[1:]:
+            n = z3.If(q.len > n, q.len, n)
+
+        def get(i):
+            return tuple((q.at(i) if interp.ctx.branch(i < q.len) else fillvalue) for q in ss)
+        return SSeq(z3.simplify(n), get, name="zip_longest")
     return list(_it.zip_longest(*[list(interp.iterate(x)) for x in its], fillvalue=fillvalue))
 
 
@@ -2674,7 +2683,7 @@ def _m_dict_fromkeys(interp, keys, value=None):
 
 DEFAULT_MODELS = {
     dict.fromkeys: _m_dict_fromkeys,
-    _itertools.product: _m_product,
+    _itertools.product: _m_product, _itertools.zip_longest: _m_zip_longest,
     iter: _m_iter,
     object.__setattr__: _m_object_setattr,
     _math.copysign: _m_copysign,
